@@ -11,6 +11,7 @@ From RX.Proofs Require Import Tactics NoPanicUtf8 PositionProofs
   ErrShiftMidFrame ErrShiftMidCont ErrShiftMidPos ErrShiftMidCore ErrShiftMidLocal ErrShiftMidProlog
   ErrShiftMidFinal
   ErrShiftDtdLocal ErrShiftDtdCont ErrShiftDtdCore ErrShiftDtdProlog ErrShiftDtdFinal
+  ErrShiftEntSide ErrShiftEntSideSim
   ErrShiftEntBase ErrShiftEntStream ErrShiftEntTok ErrShiftEntBuild ErrShiftEntDoc ErrShiftEntCore ErrShiftEntProlog.
 Open Scope N_scope.
 
@@ -31,7 +32,8 @@ Lemma ent_main pre ws post opt n sQ cQ (Hws : forallb byte_is_space ws = true) (
      exists cU, rest_run pre post opt n cU /\ CI (blen pre) cU /\
        d = pd (olds_of cQ) (c_doc cU) /\
        Forall (fun o => ntext (fst o)) (olds_of cQ) /\ Forall (old_below (blen pre) (blen ws)) (olds_of cQ) /\
-       parse (pre ++ ws ++ post) opt = Ok (pd (olds_of cQ) (x_doc (blen pre) (blen ws) (c_doc cU)))).
+       parse (pre ++ ws ++ post) opt = Ok (pd (olds_of cQ) (x_doc (blen pre) (blen ws) (c_doc cU))) /\
+       mid_doc (blen pre) (blen ws) (c_doc cU) = x_doc (blen pre) (blen ws) (c_doc cU)).
 Proof.
   intros Hne Hpost Hst HQ HW St.
   set (X2 := ws ++ post).
@@ -115,6 +117,10 @@ Proof.
     rewrite (rr_ent (tlen (pre ++ X2)) cQ). fold cQ0 ents. rewrite F1 at 1. reflexivity. }
   assert (HIN : ErrShiftMidFrame.Inv olds cN) by (apply Inv_entities; apply Inv_sh; exact D2).
   assert (HCN : CI (blen pre) cN) by (apply (CI_neutral (blen pre) HP0 _ _ _ (blen post) _ HPS Hent)).
+  assert (Hfl0 : c_entity_floor cQ0 = 0).
+  { pose proof (prolog_entities (pre ++ post) opt n _ cQ Hst0 ltac:(cbn [cs s_pos]; lia)) as [_ HF0]. exact HF0. }
+  pose proof (U_neutral (blen pre) _ _ _ (blen post) ents HP0 HPS Hfl0) as HUN. cbv zeta in HUN. fold c0 in HUN. fold cN in HUN.
+  set (nodesN := d_nodes (c_doc cN)) in *.
   (* the two parses as [cont2] *)
   set (fu := (length (s_rest (cs (pre ++ post) p4)) - n)%nat).
   set (fu' := (length (s_rest (cs (pre ++ X2) p4)) - n)%nat).
@@ -147,19 +153,23 @@ Proof.
     assert (Hdt1 : parse_doctype (pre ++ post) context (Parse.token (pre ++ post)) (skip_spaces (cs (pre ++ post) p3)) c3
                    = Ok (cs (pre ++ post) p4, c4)) by (rewrite Esk; exact Hdt).
     exact (dtd_fuel (pre ++ post) opt n ci _ _ c3 _ c4 _ cQ Ei Es Hm0 Hsw1 Hd Hdt1 Hst Hno). }
-  clearbody fu fu' olds A0 W. subst pre.
+  clearbody fu fu' olds A0 W nodesN. subst pre.
+  set (SSv := SS A0 W ws post Hws Hv).
+  assert (HJ : forall tok c c', TokI SSv true tok -> CI (blen (A0 ++ W)) c -> U (blen (A0 ++ W)) true 0 0 nodesN c ->
+                 Parse.token ((A0 ++ W) ++ post) tok c = Ok c' -> U (blen (A0 ++ W)) true 0 0 nodesN c').
+  { intros tok c c' Ht Hc Hu Hev. exact (token_U SSv HP0 true 0 0 nodesN tok c c' Ht Hc Hu Hev). }
   split.
   - intros e He. destruct (HE (Hfuel ltac:(rewrite He; discriminate))) as [E1 E2].
     rewrite ET2 in E2.
-    destruct (core_ent_err A0 W ws post HWsp Hws Hv Hpost HP0 olds D3 opt fu fu' cN HIN HCN Hfu E1 E2 e He) as (e' & He' & HR).
+    destruct (core_ent_err A0 W ws post HWsp Hws Hv Hpost HP0 olds D3 _ HJ opt fu fu' cN HIN HCN HUN Hfu E1 E2 e He) as (e' & He' & HR).
     exists e'. split; [|exact HR]. fold X2. rewrite ET2. exact He'.
   - intros d Hd'. destruct (HE (Hfuel ltac:(rewrite Hd'; discriminate))) as [E1 E2].
     rewrite ET2 in E2.
-    destruct (core_ent_ok A0 W ws post HWsp Hws Hv Hpost HP0 olds D3 opt fu fu' cN HIN HCN Hfu E1 E2 d Hd') as (cU & EU & CU & Ed & Hp2).
+    destruct (core_ent_ok A0 W ws post HWsp Hws Hv Hpost HP0 olds D3 _ HJ opt fu fu' cN HIN HCN HUN Hfu E1 E2 d Hd') as (cU & EU & [CU UU] & Ed & Hp2).
     exists cU. split.
     { exists (cs ((A0 ++ W) ++ post) Q), cQ, A0, W, fu. split; [exact Hst0|]. split; [reflexivity|]. split; [exact EA0|exact EU]. }
     split; [exact CU|]. split; [exact Ed|]. split; [exact D3|]. split; [exact HB|].
-    fold X2. rewrite ET2. exact Hp2.
+    split; [|eapply U_mid_x; exact UU]. fold X2. rewrite ET2. exact Hp2.
 Qed.
 
 (* ------------------------------------------------------------------ *)
@@ -227,6 +237,23 @@ Proof.
     destruct (H1 e He) as (e' & He' & HR). exists e'. split; [exact He'|]. apply (ER_EntErr _ _ _ HR).
 Qed.
 Print Assumptions parse_err_shift_ent.
+
+(** * The theorem: documents *)
+Theorem parse_ok_shift_ent : forall pre ws post opt d,
+  forallb byte_is_space ws = true -> valid_utf8_b post = true -> post <> [] ->
+  dtd_point pre post opt ->
+  parse (pre ++ post) opt = Ok d ->
+  parse (pre ++ ws ++ post) opt = Ok (mid_doc (blen pre) (blen ws) d).
+Proof.
+  intros pre ws post opt d Hws Hv Hpost (n & cQ & (sQ & Hst & HQ & HW)) Hd.
+  destruct ws as [|w ws'] eqn:Ews.
+  - cbn [app]. change (blen []) with 0. rewrite mid_doc_0. exact Hd.
+  - rewrite <- Ews in *. assert (Hne : ws <> []) by (rewrite Ews; discriminate).
+    destruct (ent_main pre ws post opt n sQ cQ Hws Hv Hne Hpost Hst HQ HW) as [_ H2].
+    destruct (H2 d Hd) as (cU & _ & _ & -> & Hnt & Hb & Hp & Em).
+    rewrite (mid_doc_pd (blen pre) (blen ws) (olds_of cQ) Hnt Hb), Em. exact Hp.
+Qed.
+Print Assumptions parse_ok_shift_ent.
 
 (* ---- rows and columns ---- *)
 Lemma is_boundary_app_inv pre post q : is_boundary (pre ++ post) (blen pre + q) = true -> is_boundary post q = true.
